@@ -135,6 +135,8 @@ func noPanicInWorkerFor(src string, allow time.Duration) (answer string) {
 // enclosing scopes, modules, channels, type definitions - never one container. A fatal runtime error ("concurrent map
 // iteration and map write") cannot be recovered and kills the host.
 var concurrentScenarios = []string{
+	// function literals of many arities (5+ parameters, variadic) evaluated by many goroutines at once in a fresh process
+	"done = make(chan bool)\nfor g = 0; g < 12; g++ {\ngo func() {\nf5 = func(p0, p1, p2, p3, p4) { return 0 }\nf8 = func(p0, p1, p2, p3, p4, p5, p6, p7) { return 0 }\nf11 = func(p0, p1, p2, p3, p4, p5, p6, p7, p8, p9, p10) { return 0 }\nf14 = func(p0, p1, p2, p3, p4, p5, p6, p7, p8, p9, p10, p11, p12, p13) { return 0 }\nf17 = func(p0, p1, p2, p3, p4, p5, p6, p7, p8, p9, p10, p11, p12, p13, p14, p15, p16) { return 0 }\nf20 = func(p0, p1, p2, p3, p4, p5, p6, p7, p8, p9, p10, p11, p12, p13, p14, p15, p16, p17, p18, p19) { return 0 }\nf23 = func(p0, p1, p2, p3, p4, p5, p6, p7, p8, p9, p10, p11, p12, p13, p14, p15, p16, p17, p18, p19, p20, p21, p22) { return 0 }\nf26 = func(p0, p1, p2, p3, p4, p5, p6, p7, p8, p9, p10, p11, p12, p13, p14, p15, p16, p17, p18, p19, p20, p21, p22, p23, p24, p25) { return 0 }\nf29 = func(p0, p1, p2, p3, p4, p5, p6, p7, p8, p9, p10, p11, p12, p13, p14, p15, p16, p17, p18, p19, p20, p21, p22, p23, p24, p25, p26, p27, p28) { return 0 }\nf32 = func(p0, p1, p2, p3, p4, p5, p6, p7, p8, p9, p10, p11, p12, p13, p14, p15, p16, p17, p18, p19, p20, p21, p22, p23, p24, p25, p26, p27, p28, p29, p30, p31) { return 0 }\nf35 = func(p0, p1, p2, p3, p4, p5, p6, p7, p8, p9, p10, p11, p12, p13, p14, p15, p16, p17, p18, p19, p20, p21, p22, p23, p24, p25, p26, p27, p28, p29, p30, p31, p32, p33, p34) { return 0 }\nf38 = func(p0, p1, p2, p3, p4, p5, p6, p7, p8, p9, p10, p11, p12, p13, p14, p15, p16, p17, p18, p19, p20, p21, p22, p23, p24, p25, p26, p27, p28, p29, p30, p31, p32, p33, p34, p35, p36, p37) { return 0 }\nv0 = func(r...) { return 0 }\nv1 = func(q0, r...) { return 0 }\nv2 = func(q0, q1, r...) { return 0 }\nv3 = func(q0, q1, q2, r...) { return 0 }\nv4 = func(q0, q1, q2, q3, r...) { return 0 }\nv5 = func(q0, q1, q2, q3, q4, r...) { return 0 }\nv6 = func(q0, q1, q2, q3, q4, q5, r...) { return 0 }\nv7 = func(q0, q1, q2, q3, q4, q5, q6, r...) { return 0 }\nv8 = func(q0, q1, q2, q3, q4, q5, q6, q7, r...) { return 0 }\nv9 = func(q0, q1, q2, q3, q4, q5, q6, q7, q8, r...) { return 0 }\nv10 = func(q0, q1, q2, q3, q4, q5, q6, q7, q8, q9, r...) { return 0 }\nv11 = func(q0, q1, q2, q3, q4, q5, q6, q7, q8, q9, q10, r...) { return 0 }\ndone <- true\n}()\n}\nfor g = 0; g < 12; g++ {\n<-done\n}",
 	"module mm { x = 1\n func get() { return x } }\nn = 0\ndone = make(chan bool)\ngo func() {\nfor i = 0; i < 30000; i++ {\nn = n + 1\n}\ndone <- true\n}()\nfor i = 0; i < 3000; i++ {\ny = mm\n}\n<-done",
 	"module mm { x = 1 }\ndone = make(chan bool)\ngo func() {\nfor i = 0; i < 20000; i++ {\nvar fresh = i\nfresh2 = i\n}\ndone <- true\n}()\nfor i = 0; i < 3000; i++ {\nvar y = mm\n}\n<-done",
 	"module mm { x = 1 }\ndone = make(chan bool)\ngo func() {\nfor i = 0; i < 20000; i++ {\nmm.x = i\n}\ndone <- true\n}()\nfor i = 0; i < 3000; i++ {\ns = toString(mm)\n}\n<-done",
@@ -184,6 +186,8 @@ var degenerateForms = []string{
 	"qq = [1]\nfunc ff() { qq[0] = [1, 2]; return 5 }\nmm = {qq[0]: ff(), 2: 3}\nmm[1]", "qq = make([]interface, 1)\nqq[0] = 1\nfunc ff() { qq[0] = func() { }; return 5 }\nmm = {qq[0]: ff()}",
 	"st.A = [1]\nfunc ff() { st.A = nil; return 5 }\n{st.A: ff()}", "qq = [1]\nfunc ff() { qq[0] = [1, 2]; return 1 }\nswitch qq[0] { case ff(): 1 }", "qq = [1]\nfunc ff() { qq[0] = [1, 2]; return 1 }\nqq[0] in [ff(), qq[0]]",
 	"qq = [[1]]\nfunc ff() { qq[0] = 7; return 0 }\nqq[0][ff()]", "qq = [[1, 2]]\nfunc ff() { qq[0] = 7; return 1 }\nqq[0][ff():]", "qq = [1]\nfunc ff() { qq[0] = [1]; return 0 }\nx[qq[0]] = ff()\nx[qq[0]]",
+	// reflect.FuncOf refuses more than 128 words of signature: a function literal with very many parameters
+	"ff = func(p0, p1, p2, p3, p4, p5, p6, p7, p8, p9, p10, p11, p12, p13, p14, p15, p16, p17, p18, p19, p20, p21, p22, p23, p24, p25, p26, p27, p28, p29, p30, p31, p32, p33, p34, p35, p36, p37, p38, p39, p40, p41, p42, p43, p44, p45, p46, p47, p48, p49, p50, p51, p52, p53, p54, p55, p56, p57, p58, p59, p60, p61, p62, p63, p64, p65, p66, p67, p68, p69, p70, p71, p72, p73, p74, p75, p76, p77, p78, p79, p80, p81, p82, p83, p84, p85, p86, p87, p88, p89, p90, p91, p92, p93, p94, p95, p96, p97, p98, p99, p100, p101, p102, p103, p104, p105, p106, p107, p108, p109, p110, p111, p112, p113, p114, p115, p116, p117, p118, p119, p120, p121, p122, p123, p124, p125, p126, p127, p128, p129) { return 1 }", "func gg(p0, p1, p2, p3, p4, p5, p6, p7, p8, p9, p10, p11, p12, p13, p14, p15, p16, p17, p18, p19, p20, p21, p22, p23, p24, p25, p26, p27, p28, p29, p30, p31, p32, p33, p34, p35, p36, p37, p38, p39, p40, p41, p42, p43, p44, p45, p46, p47, p48, p49, p50, p51, p52, p53, p54, p55, p56, p57, p58, p59, p60, p61, p62, p63, p64, p65, p66, p67, p68, p69, p70, p71, p72, p73, p74, p75, p76, p77, p78, p79, p80, p81, p82, p83, p84, p85, p86, p87, p88, p89, p90, p91, p92, p93, p94, p95, p96, p97, p98, p99, p100, p101, p102, p103, p104, p105, p106, p107, p108, p109, p110, p111, p112, p113, p114, p115, p116, p117, p118, p119, p120, p121, p122, p123, p124, p125, p126, p127, p128, p129, rest...) { return 1 }\ngg()", "func() { return func(p0, p1, p2, p3, p4, p5, p6, p7, p8, p9, p10, p11, p12, p13, p14, p15, p16, p17, p18, p19, p20, p21, p22, p23, p24, p25, p26, p27, p28, p29, p30, p31, p32, p33, p34, p35, p36, p37, p38, p39, p40, p41, p42, p43, p44, p45, p46, p47, p48, p49, p50, p51, p52, p53, p54, p55, p56, p57, p58, p59, p60, p61, p62, p63, p64, p65, p66, p67, p68, p69, p70, p71, p72, p73, p74, p75, p76, p77, p78, p79, p80, p81, p82, p83, p84, p85, p86, p87, p88, p89, p90, p91, p92, p93, p94, p95, p96, p97, p98, p99, p100, p101, p102, p103, p104, p105, p106, p107, p108, p109, p110, p111, p112, p113, p114, p115, p116, p117, p118, p119, p120, p121, p122, p123, p124, p125, p126, p127, p128, p129) { } }()",
 	"func rec(n) { return rec(n) }", "type T struct", "struct", "chan", "map", "len", "return 1, ", "throw", "break", "continue", "return",
 }
 
